@@ -748,7 +748,7 @@ func expand(p *packages.Package, f *ast.File, src []byte, s inlineSite, n int, r
 		b.WriteString(preInit + "\n")
 	}
 	for _, h := range hoists {
-		b.WriteString("var " + h.name + " " + h.typ + " = " + text(h.call.Pos(), h.call.End()) + "\n")
+		b.WriteString("var " + h.name + " " + h.typ + "\n" + h.name + " = " + text(h.call.Pos(), h.call.End()) + "\n")
 	}
 	// arguments
 	type bind struct{ name, tmp string }
@@ -799,7 +799,7 @@ func expand(p *packages.Package, f *ast.File, src []byte, s inlineSite, n int, r
 				return nil, nil, "parameter type not expressible at the call site"
 			}
 			imps = append(imps, more...)
-			b.WriteString("var " + tmp + " " + ts + " = " + text(s.call.Args[ai].Pos(), s.call.Args[ai].End()) + "\n")
+			b.WriteString("var " + tmp + " " + ts + "\n" + tmp + " = " + text(s.call.Args[ai].Pos(), s.call.Args[ai].End()) + "\n")
 			if len(names) > 0 && names[j].Name != "_" {
 				binds = append(binds, bind{names[j].Name, tmp})
 			} else {
